@@ -29,6 +29,13 @@ Section Container.
   Definition g_len (g : graph) : nat := length g.
   Definition g_is_empty (g : graph) : bool := match g with [] => true | _ => false end.
 
+  (* decidable form of the hypothesis OrderOK of the container theorems (Spec.v): the observed iteration order lists
+     every bound key exactly once.  The driver evaluates it on every observed order before using it. *)
+  Fixpoint nodupb (l : list K) : bool :=
+    match l with [] => true | x :: r => negb (existsb (keqb x) r) && nodupb r end.
+  Definition order_okb (g : graph) (order : list K) : bool :=
+    nodupb order && Nat.eqb (length order) (length g) && forallb (fun k => g_contains g k) order.
+
   (* members in the container's (observed) iteration order *)
   Definition g_iter (g : graph) (order : list K) : list nat :=
     flat_map (fun k => match g_get g k with Some u => [u] | None => [] end) order.
